@@ -6,6 +6,7 @@ import (
 	"go/constant"
 	"go/token"
 	"go/types"
+	"sort"
 	"strings"
 
 	"golang.org/x/tools/go/ssa"
@@ -383,3 +384,717 @@ var _ = ast.Inspect
 var _ = types.Typ
 var _ = strings.Contains
 var _ = constant.MakeBool
+
+// ---------------------------------------------------------------------------
+// R-REFZERO: a backreference contributes nothing to the minimum length.
+// What \1 has to repeat depends on which capture of the group is current at
+// run time (a group captured twice, a balancing group, an unset group under
+// ECMAScript): ComputeMinLength knows NtRef only in the arm that answers 0.
+// ---------------------------------------------------------------------------
+
+func RRefZero(c *core.Ctx) {
+	c.Rule("R-REFZERO", "in ComputeMinLength the node kind NtRef is mentioned only in the case list of an arm that returns the constant 0: no branch credits a backreference with the length of the group it names", 1)
+	p := c.P
+	syn := p.Pkg("syntax")
+	info := syn.TypesInfo
+	fd, _ := p.DeclOf(p.LookupFunc("syntax", "RegexNode.ComputeMinLength"))
+	ref := p.LookupObj("syntax", "NtRef")
+	if fd == nil || ref == nil {
+		c.Anchor("syntax.RegexNode.ComputeMinLength / NtRef")
+		return
+	}
+	c.Visit("syntax.(*RegexNode).ComputeMinLength")
+	// identifiers of NtRef that stand in a case list whose arm returns 0
+	okIdent := map[*ast.Ident]bool{}
+	ast.Inspect(fd.Body, func(x ast.Node) bool {
+		cc, ok := x.(*ast.CaseClause)
+		if !ok {
+			return true
+		}
+		zero := false
+		for _, st := range cc.Body {
+			if rs, ok := st.(*ast.ReturnStmt); ok && len(rs.Results) == 1 {
+				if v, ok := core.ConstInt(info, rs.Results[0]); ok && v == 0 {
+					zero = true
+				}
+			}
+		}
+		// an empty arm that falls out of the switch to a final `return 0`
+		if len(cc.Body) == 0 {
+			zero = true
+		}
+		if zero {
+			for _, e := range cc.List {
+				if id, ok := ast.Unparen(e).(*ast.Ident); ok && info.ObjectOf(id) == ref {
+					okIdent[id] = true
+				}
+			}
+		}
+		return true
+	})
+	n := 0
+	ast.Inspect(fd.Body, func(x ast.Node) bool {
+		id, ok := x.(*ast.Ident)
+		if !ok || info.ObjectOf(id) != ref {
+			return true
+		}
+		n++
+		c.Check(okIdent[id], fmt.Sprintf("ComputeMinLength / mention #%d of NtRef is in the arm that answers 0", n), id.Pos(), "NtRef is tested outside the zero arm: a backreference is given a minimum length, but `(?<n>abc)(?<n>d)\\k<n>` repeats only \"d\" and a balancing group's reference repeats the enclosed span — the inflated minimum makes the scan give up on real matches near the end of the input")
+		return true
+	})
+	if n == 0 {
+		c.Anchor("mentions of NtRef in ComputeMinLength")
+	}
+}
+
+// ---------------------------------------------------------------------------
+// R-SAMEHAY: every needle is searched in the same haystack.
+// A multi-prefix filter answers with the LEFTMOST occurrence of any prefix.
+// An occurrence of a longer prefix can start left of the best hit so far and
+// end right of it; narrowing the haystack to the end of the best hit hides it.
+// ---------------------------------------------------------------------------
+
+func RSameHay(c *core.Ctx) {
+	c.Rule("R-SAMEHAY", "in indexAnyPrefixFallback the string that the prefixes are searched in is not reassigned inside the loop over the prefixes: each prefix is looked for in the whole remaining input, and only the offsets are compared", 1)
+	p := c.P
+	pk := p.Pkg("")
+	info := pk.TypesInfo
+	fd, _ := p.DeclOf(p.LookupFunc("", "indexAnyPrefixFallback"))
+	if fd == nil {
+		c.Anchor("regexp2.indexAnyPrefixFallback")
+		return
+	}
+	c.Visit("regexp2.indexAnyPrefixFallback")
+	n := 0
+	ast.Inspect(fd.Body, func(x ast.Node) bool {
+		rg, ok := x.(*ast.RangeStmt)
+		if !ok {
+			return true
+		}
+		// haystacks: first arguments of calls in the loop that take (string, string)
+		hay := map[types.Object]bool{}
+		ast.Inspect(rg.Body, func(y ast.Node) bool {
+			call, ok := y.(*ast.CallExpr)
+			if !ok || len(call.Args) != 2 {
+				return true
+			}
+			if id, ok := ast.Unparen(call.Args[0]).(*ast.Ident); ok {
+				if b, ok := info.TypeOf(id).Underlying().(*types.Basic); ok && b.Info()&types.IsString != 0 {
+					if o := info.ObjectOf(id); o != nil && !(rg.Pos() <= o.Pos() && o.Pos() < rg.End()) {
+						hay[o] = true
+					}
+				}
+			}
+			return true
+		})
+		if len(hay) == 0 {
+			return true
+		}
+		n++
+		var bad token.Pos
+		ast.Inspect(rg.Body, func(y ast.Node) bool {
+			if as, ok := y.(*ast.AssignStmt); ok {
+				for _, l := range as.Lhs {
+					if id, ok := ast.Unparen(l).(*ast.Ident); ok && hay[info.ObjectOf(id)] && !bad.IsValid() {
+						bad = as.Pos()
+					}
+				}
+			}
+			return true
+		})
+		c.Check(!bad.IsValid(), fmt.Sprintf("indexAnyPrefixFallback / loop #%d searches every prefix in the same text", n), rg.Pos(), "the haystack is reassigned at %s inside the loop: a prefix that begins left of the best hit so far but ends right of where the haystack was cut is no longer found, and the filter hands the matcher a candidate to the right of a real match start", p.Pos(bad))
+		return true
+	})
+	if n == 0 {
+		c.Anchor("the loop over the prefixes in indexAnyPrefixFallback")
+	}
+}
+
+// ---------------------------------------------------------------------------
+// R-CONDUNWRAP: only a positive lookahead is the same thing as its body when
+// it stands as the condition of (?(cond)yes|no).  A negative lookahead throws
+// its captures away whatever happens; replacing it by its body (and swapping
+// the branches) keeps them.
+// ---------------------------------------------------------------------------
+
+func RCondUnwrap(c *core.Ctx) {
+	c.Rule("R-CONDUNWRAP", "in reduceExpressionConditional the condition is replaced by its own child only under a test that names NtPosLook and no other node kind: a negative lookahead is not unwrapped", 1)
+	p := c.P
+	syn := p.Pkg("syntax")
+	info := syn.TypesInfo
+	fd, _ := p.DeclOf(p.LookupFunc("syntax", "RegexNode.reduceExpressionConditional"))
+	repl := p.LookupFunc("syntax", "RegexNode.ReplaceChild")
+	if fd == nil || repl == nil {
+		c.Anchor("syntax.RegexNode.reduceExpressionConditional / ReplaceChild")
+		return
+	}
+	c.Visit("syntax.(*RegexNode).reduceExpressionConditional")
+	n := 0
+	var stack []ast.Node
+	ast.Inspect(fd.Body, func(x ast.Node) bool {
+		if x == nil {
+			stack = stack[:len(stack)-1]
+			return true
+		}
+		stack = append(stack, x)
+		call, ok := x.(*ast.CallExpr)
+		if !ok || core.Callee(info, call) != repl {
+			return true
+		}
+		n++
+		kinds := map[string]bool{}
+		for i := len(stack) - 2; i >= 0; i-- {
+			if ifs, ok := stack[i].(*ast.IfStmt); ok {
+				ast.Inspect(ifs.Cond, func(y ast.Node) bool {
+					if id, ok := y.(*ast.Ident); ok {
+						if k, ok := info.ObjectOf(id).(*types.Const); ok && strings.HasPrefix(core.BaseName(k), "Nt") {
+							kinds[core.BaseName(k)] = true
+						}
+					}
+					return true
+				})
+			}
+		}
+		okOnly := len(kinds) == 1 && kinds["NtPosLook"]
+		c.Check(okOnly, fmt.Sprintf("reduceExpressionConditional / unwrapping #%d is for a positive lookahead only", n), call.Pos(), "the condition is replaced by its child under a test naming %v: for a negative lookahead the captures made inside it must be discarded, unwrapped they survive into the match and into later \\1 / (?(1)…) tests", keysOfBoolMap(kinds))
+		return true
+	})
+	if n == 0 {
+		c.Anchor("ReplaceChild in reduceExpressionConditional")
+	}
+}
+
+func keysOfBoolMap(m map[string]bool) []string {
+	var out []string
+	for k := range m {
+		out = append(out, k)
+	}
+	sort.Strings(out)
+	return out
+}
+
+// ---------------------------------------------------------------------------
+// R-NOSHORTCUT: whether there is a match is decided by the matcher.
+// An entry point may answer "no match" without running the program only when
+// the prefix filter said so.  "Nothing left to scan" is not such a reason: at
+// the very end of the input $, \b, x* and lookbehinds still match.
+// ---------------------------------------------------------------------------
+
+func RNoShortcut(c *core.Ctx) {
+	c.Rule("R-NOSHORTCUT", "no exported method of Regexp returns its \"no match\" answer (nil match / false with a nil error) on the strength of a comparison between the start offset and the length of the input: the empty string at the end of the text is still searched", 1)
+	p := c.P
+	n, examined := 0, 0
+	for _, fn := range p.ModuleFuncs() {
+		if core.FnPkgPath(fn) != core.PkgRoot || fn.Signature.Recv() == nil || !ast.IsExported(fn.Name()) {
+			continue
+		}
+		if _, nm := core.NamedOf(fn.Signature.Recv().Type()); nm != "Regexp" {
+			continue
+		}
+		res := fn.Signature.Results()
+		if res.Len() != 2 || !types.Identical(res.At(1).Type(), types.Universe.Lookup("error").Type()) {
+			continue
+		}
+		examined++
+		name := core.SSAName(fn)
+		isLenOfParam := func(v ssa.Value) bool {
+			call, ok := v.(*ssa.Call)
+			if !ok {
+				return false
+			}
+			bi, ok := call.Call.Value.(*ssa.Builtin)
+			if !ok || bi.Name() != "len" || len(call.Call.Args) != 1 {
+				return false
+			}
+			_, isP := call.Call.Args[0].(*ssa.Parameter)
+			return isP
+		}
+		isParam := func(v ssa.Value) bool { _, ok := v.(*ssa.Parameter); return ok }
+		isZero := func(v ssa.Value) bool {
+			k, ok := v.(*ssa.Const)
+			if !ok || k.Value == nil || k.Value.Kind() != constant.Int {
+				return false
+			}
+			i, _ := constant.Int64Val(k.Value)
+			return i == 0
+		}
+		nilAnswer := func(b *ssa.BasicBlock) bool {
+			if len(b.Instrs) == 0 {
+				return false
+			}
+			ret, ok := b.Instrs[len(b.Instrs)-1].(*ssa.Return)
+			if !ok || len(ret.Results) != 2 {
+				return false
+			}
+			k0, ok0 := ret.Results[0].(*ssa.Const)
+			k1, ok1 := ret.Results[1].(*ssa.Const)
+			if !ok0 || !ok1 || !k1.IsNil() {
+				return false
+			}
+			return k0.IsNil() || (k0.Value != nil && k0.Value.Kind() == constant.Bool && !constant.BoolVal(k0.Value))
+		}
+		for _, b := range fn.Blocks {
+			if len(b.Instrs) == 0 || len(b.Succs) != 2 {
+				continue
+			}
+			ifi, ok := b.Instrs[len(b.Instrs)-1].(*ssa.If)
+			if !ok {
+				continue
+			}
+			cmp, ok := ifi.Cond.(*ssa.BinOp)
+			if !ok || (cmp.Op != token.EQL && cmp.Op != token.GEQ && cmp.Op != token.LEQ) {
+				continue
+			}
+			offsetVsLen := (isParam(cmp.X) && isLenOfParam(cmp.Y)) || (isParam(cmp.Y) && isLenOfParam(cmp.X))
+			_ = isZero
+			if !offsetVsLen {
+				continue
+			}
+			// the true edge (or a short chain from it) returns the no-match answer
+			t := b.Succs[0]
+			for d := 0; d < 2 && t != nil && !nilAnswer(t) && len(t.Succs) == 1 && len(t.Instrs) == 1; d++ {
+				t = t.Succs[0]
+			}
+			if t != nil && nilAnswer(t) {
+				n++
+				c.Visit(name)
+				c.Bad(fmt.Sprintf("%s / no-match answer without a scan #%d", name, n), cmp.Pos(), "`%s` leads straight to the \"no match\" answer: with the start offset at the end of the input (or at 0 for a right-to-left pattern) `$`, `\\b`, `x*`, `(?<=…)` still match there, and the string entry point, which does scan, disagrees", cmp.String())
+			}
+		}
+	}
+	if n == 0 {
+		c.OK("package regexp2 / entry points leave \"no match\" to the matcher", token.NoPos, "%d exported Regexp methods returning (…, error) examined", examined)
+	}
+}
+
+// ---------------------------------------------------------------------------
+// R-RUNEERR: U+FFFD is a character; "invalid UTF-8" is U+FFFD of width 1.
+// `range` over a string yields utf8.RuneError both for the valid three-byte
+// encoding of U+FFFD and for an invalid byte.  A comparison with RuneError
+// therefore says nothing until the width is looked at.
+// ---------------------------------------------------------------------------
+
+func RRuneErr(c *core.Ctx) {
+	c.Rule("R-RUNEERR", "in packages regexp2 and compat every branch taken on `r == utf8.RuneError` goes on to decode the rune again for its width (utf8.DecodeRune*): the comparison alone never decides that text is invalid — U+FFFD is a valid character that patterns and inputs may contain", 2)
+	p := c.P
+	n := 0
+	for _, pkn := range []string{"", "compat"} {
+		pk := p.Pkg(pkn)
+		if pk == nil {
+			continue
+		}
+		info := pk.TypesInfo
+		isRuneError := func(e ast.Expr) bool {
+			sel, ok := ast.Unparen(e).(*ast.SelectorExpr)
+			if !ok {
+				return false
+			}
+			k, ok := info.ObjectOf(sel.Sel).(*types.Const)
+			return ok && k.Pkg() != nil && k.Pkg().Path() == "unicode/utf8" && k.Name() == "RuneError"
+		}
+		for _, fd := range p.FuncDecls(pk) {
+			if fd.Body == nil || p.IsTestFile(fd.Pos()) {
+				continue
+			}
+			name := core.DeclName(pk, fd)
+			ord := 0
+			ast.Inspect(fd.Body, func(x ast.Node) bool {
+				ifs, ok := x.(*ast.IfStmt)
+				if !ok {
+					return true
+				}
+				hit := false
+				ast.Inspect(ifs.Cond, func(y ast.Node) bool {
+					if be, ok := y.(*ast.BinaryExpr); ok && (be.Op == token.EQL || be.Op == token.NEQ) && (isRuneError(be.X) || isRuneError(be.Y)) {
+						hit = true
+					}
+					return true
+				})
+				if !hit {
+					return true
+				}
+				n++
+				ord++
+				c.Visit(name)
+				decodes := false
+				ast.Inspect(ifs, func(y ast.Node) bool {
+					if call, ok := y.(*ast.CallExpr); ok {
+						if cal := core.Callee(info, call); cal != nil && cal.Pkg() != nil && cal.Pkg().Path() == "unicode/utf8" && strings.HasPrefix(cal.Name(), "Decode") {
+							decodes = true
+						}
+					}
+					return true
+				})
+				c.Check(decodes, fmt.Sprintf("%s / RuneError test #%d looks at the width", name, ord), ifs.Pos(), "`%s` is acted on without decoding for the width: a pattern or input that contains the valid character U+FFFD is treated as invalid UTF-8", types.ExprString(ifs.Cond))
+				return true
+			})
+		}
+	}
+	if n == 0 {
+		c.Anchor("comparisons with utf8.RuneError in packages regexp2 / compat")
+	}
+}
+
+// ---------------------------------------------------------------------------
+// R-ESCAPEONE: Escape has one codec.
+// What Escape writes for a rune is decided by the helper escape(), whose
+// output the parser's scanners are checked against (R-CODEC).  Escape itself
+// writes no escape sequence of its own: `\0` for NUL, say, is an OCTAL escape
+// that swallows the digits that follow.
+// ---------------------------------------------------------------------------
+
+func REscapeOne(c *core.Ctx) {
+	c.Rule("R-ESCAPEONE", "syntax.Escape writes to its output only through the helper escape(): it contains no Write* of its own (no string or rune literal with a backslash)", 1)
+	p := c.P
+	syn := p.Pkg("syntax")
+	info := syn.TypesInfo
+	fd, _ := p.DeclOf(p.LookupFunc("syntax", "Escape"))
+	helper := p.LookupFunc("syntax", "escape")
+	if fd == nil || helper == nil {
+		c.Anchor("syntax.Escape / syntax.escape")
+		return
+	}
+	c.Visit("syntax.Escape")
+	var bad token.Pos
+	what := ""
+	calls := 0
+	ast.Inspect(fd.Body, func(x ast.Node) bool {
+		call, ok := x.(*ast.CallExpr)
+		if !ok {
+			return true
+		}
+		if core.Callee(info, call) == helper {
+			calls++
+			return true
+		}
+		if sel, ok := ast.Unparen(call.Fun).(*ast.SelectorExpr); ok && strings.HasPrefix(sel.Sel.Name, "Write") && !bad.IsValid() {
+			bad, what = call.Pos(), types.ExprString(call)
+		}
+		return true
+	})
+	switch {
+	case bad.IsValid():
+		c.Bad("Escape / every rune goes through escape()", bad, "`%s` writes to the output directly: the text it writes is not covered by the agreement between escape() and the parser's scanners (a `\\0` for NUL is an octal escape and absorbs following digits: Unescape(Escape(\"\\x007\")) is \"\\a\")", what)
+	case calls == 0:
+		c.Unknown("Escape / every rune goes through escape()", fd.Pos(), "no call of escape() found")
+	default:
+		c.OK("Escape / every rune goes through escape()", fd.Pos(), "%d call(s) of escape(), no direct write", calls)
+	}
+}
+
+// ---------------------------------------------------------------------------
+// R-NAMESTART: where a group name may start is one predicate.
+// The characters that can begin a name depend on the flavour (ECMAScript: $,
+// _, letters incl. Nl, and a backslash for \uXXXX).  The replacement parser
+// decides "is this ${name}" with the parser's own predicate, so that every
+// name the pattern can define can be referenced.
+// ---------------------------------------------------------------------------
+
+func RNameStart(c *core.Ctx) {
+	c.Rule("R-NAMESTART", "in scanDollar the branch that scans a group name (calls scanCapname) is entered under the parser's flavour-aware predicate isGroupNameStartChar, not under a fixed character test", 1)
+	p := c.P
+	syn := p.Pkg("syntax")
+	info := syn.TypesInfo
+	fd, _ := p.DeclOf(p.LookupFunc("syntax", "parser.scanDollar"))
+	capname := p.LookupFunc("syntax", "parser.scanCapname")
+	pred := p.LookupFunc("syntax", "parser.isGroupNameStartChar")
+	if fd == nil || capname == nil || pred == nil {
+		c.Anchor("parser.scanDollar / scanCapname / isGroupNameStartChar")
+		return
+	}
+	c.Visit("syntax.(*parser).scanDollar")
+	n := 0
+	var stack []ast.Node
+	ast.Inspect(fd.Body, func(x ast.Node) bool {
+		if x == nil {
+			stack = stack[:len(stack)-1]
+			return true
+		}
+		stack = append(stack, x)
+		call, ok := x.(*ast.CallExpr)
+		if !ok || core.Callee(info, call) != capname {
+			return true
+		}
+		n++
+		guarded := false
+		for i := len(stack) - 2; i >= 0; i-- {
+			if ifs, ok := stack[i].(*ast.IfStmt); ok && len(core.CallsIn(info, ifs.Cond, pred)) > 0 {
+				// the call must be in the body, not in the else part
+				if ifs.Body.Pos() <= call.Pos() && call.Pos() < ifs.Body.End() {
+					guarded = true
+				}
+			}
+		}
+		c.Check(guarded, fmt.Sprintf("scanDollar / name scan #%d is entered under isGroupNameStartChar", n), call.Pos(), "the name scan is not guarded by the flavour-aware predicate: under ECMAScript a group called `$amount` (or one written with a \\uXXXX escape) can be defined and looked up everywhere except in `${$amount}`, which is copied through as text")
+		return true
+	})
+	if n == 0 {
+		c.Anchor("scanCapname call in scanDollar")
+	}
+}
+
+// ---------------------------------------------------------------------------
+// R-TAKEALL: UnmarshalText takes over the whole compiled Regexp.
+// A field-by-field copy silently drops whatever field it forgets (capnames:
+// names are listed but no longer resolve).
+// ---------------------------------------------------------------------------
+
+func RTakeAll(c *core.Ctx) {
+	c.Rule("R-TAKEALL", "Regexp.UnmarshalText installs the freshly compiled Regexp by assigning the whole value (*re = *new); if it copies field by field instead, every field of Regexp that Compile's result carries is assigned or is re-initialised by initCaches", 1)
+	p := c.P
+	fn := p.SSAFunc(p.LookupFunc("", "Regexp.UnmarshalText"))
+	if fn == nil || len(fn.Params) == 0 {
+		c.Anchor("Regexp.UnmarshalText")
+		return
+	}
+	c.Visit(core.SSAName(fn))
+	recv := fn.Params[0]
+	whole := false
+	assigned := map[string]bool{}
+	for _, b := range fn.Blocks {
+		for _, ins := range b.Instrs {
+			st, ok := ins.(*ssa.Store)
+			if !ok {
+				continue
+			}
+			if st.Addr == ssa.Value(recv) {
+				whole = true
+			}
+			if fa, ok := st.Addr.(*ssa.FieldAddr); ok && fa.X == ssa.Value(recv) {
+				if f := core.FieldVarOfAddr(fa); f != nil {
+					assigned[f.Name()] = true
+				}
+			}
+		}
+	}
+	if whole {
+		c.OK("UnmarshalText / the whole Regexp value is replaced", fn.Pos(), "*re = *new")
+		return
+	}
+	// fields written by initCaches
+	if ic := p.SSAFunc(p.LookupFunc("", "Regexp.initCaches")); ic != nil {
+		for _, b := range ic.Blocks {
+			for _, ins := range b.Instrs {
+				if st, ok := ins.(*ssa.Store); ok {
+					if fa, ok := st.Addr.(*ssa.FieldAddr); ok {
+						if f := core.FieldVarOfAddr(fa); f != nil {
+							assigned[f.Name()] = true
+						}
+					}
+				}
+			}
+		}
+	}
+	var missing []string
+	_, nm := core.NamedOf(recv.Type())
+	_ = nm
+	if pt, ok := recv.Type().Underlying().(*types.Pointer); ok {
+		if st, ok := pt.Elem().Underlying().(*types.Struct); ok {
+			for i := 0; i < st.NumFields(); i++ {
+				if f := st.Field(i); !assigned[f.Name()] {
+					missing = append(missing, f.Name())
+				}
+			}
+		}
+	}
+	c.Check(len(missing) == 0, "UnmarshalText / the whole Regexp value is replaced", fn.Pos(), "the Regexp is taken over field by field and %v is left out: the receiver keeps the old (or zero) value of it — with capnames missing, GetGroupNames lists the names but GroupNumberFromName / ${name} no longer resolve them", missing)
+}
+
+// ---------------------------------------------------------------------------
+// R-CATEQ: a category is redundant in a class only next to itself.
+// The categories of a class form a union; dropping a new category because a
+// "covering" one is present is right for \p{L}\p{Lu} and wrong for
+// \P{L}\P{Lu} (inclusion reverses under negation).  addCategories marks a
+// category as already present only on equality of the names.
+// ---------------------------------------------------------------------------
+
+func RCatEq(c *core.Ctx) {
+	c.Rule("R-CATEQ", "in CharSet.addCategories a new category is treated as already present (not appended) only inside a branch on equality of the two category names: no other relation between categories — sub-category, alias, complement — makes one of them redundant", 1)
+	p := c.P
+	syn := p.Pkg("syntax")
+	info := syn.TypesInfo
+	fd, _ := p.DeclOf(p.LookupFunc("syntax", "CharSet.addCategories"))
+	catF := p.LookupField("syntax", "Category", "Cat")
+	if fd == nil || catF == nil {
+		c.Anchor("syntax.CharSet.addCategories / Category.Cat")
+		return
+	}
+	c.Visit("syntax.(*CharSet).addCategories")
+	// the flag: the bool local negated in the condition that guards the append to categories
+	n := 0
+	var stack []ast.Node
+	ast.Inspect(fd.Body, func(x ast.Node) bool {
+		if x == nil {
+			stack = stack[:len(stack)-1]
+			return true
+		}
+		stack = append(stack, x)
+		as, ok := x.(*ast.AssignStmt)
+		if !ok || len(as.Lhs) != 1 || len(as.Rhs) != 1 {
+			return true
+		}
+		id, ok := as.Lhs[0].(*ast.Ident)
+		if !ok {
+			return true
+		}
+		if tv, ok := info.Types[as.Rhs[0]]; !ok || tv.Value == nil || tv.Value.String() != "true" {
+			return true
+		}
+		if b, ok := info.TypeOf(id).Underlying().(*types.Basic); !ok || b.Kind() != types.Bool {
+			return true
+		}
+		n++
+		// innermost enclosing if: its condition must be exactly an equality of two .Cat fields
+		okEq := false
+		for i := len(stack) - 2; i >= 0; i-- {
+			ifs, ok := stack[i].(*ast.IfStmt)
+			if !ok {
+				continue
+			}
+			if be, ok := ast.Unparen(ifs.Cond).(*ast.BinaryExpr); ok && be.Op == token.EQL && core.FieldOf(info, be.X) == catF && core.FieldOf(info, be.Y) == catF {
+				okEq = true
+			}
+			break
+		}
+		c.Check(okEq, fmt.Sprintf("addCategories / \"already present\" #%d follows from equal category names", n), as.Pos(), "`%s = true` is reached under a condition other than equality of the category names: a category is dropped because another one is taken to cover it, which does not hold for negated categories ([\\P{L}\\P{Lu}] is not [\\P{L}])", id.Name)
+		return true
+	})
+	if n == 0 {
+		c.Anchor("the already-present flag in addCategories")
+	}
+}
+
+// ---------------------------------------------------------------------------
+// R-FOLDWALK: case closure asks every member.
+// addCaseEquivalences adds, for every rune of every range, the runes
+// SimpleFold connects it with.  A short cut for "wide" ranges through the
+// one-directional lowercase table leaves out the upper-case partners of
+// letters at the lower edge of the range.
+// ---------------------------------------------------------------------------
+
+func RFoldWalk(c *core.Ctx) {
+	c.Rule("R-FOLDWALK", "in CharSet.addCaseEquivalences the loop over the ranges has no continue / break: every range is walked rune by rune through tryFindCaseEquivalences, none is handled by another (one-directional) routine", 1)
+	p := c.P
+	syn := p.Pkg("syntax")
+	info := syn.TypesInfo
+	fd, _ := p.DeclOf(p.LookupFunc("syntax", "CharSet.addCaseEquivalences"))
+	walk := p.LookupFunc("syntax", "tryFindCaseEquivalences")
+	if fd == nil || walk == nil {
+		c.Anchor("syntax.CharSet.addCaseEquivalences / tryFindCaseEquivalences")
+		return
+	}
+	c.Visit("syntax.(*CharSet).addCaseEquivalences")
+	n := 0
+	ast.Inspect(fd.Body, func(x ast.Node) bool {
+		var body *ast.BlockStmt
+		switch l := x.(type) {
+		case *ast.ForStmt:
+			body = l.Body
+		case *ast.RangeStmt:
+			body = l.Body
+		default:
+			return true
+		}
+		if len(core.CallsIn(info, body, walk)) == 0 {
+			return true
+		}
+		// outermost loop containing the walk
+		n++
+		var bad token.Pos
+		ast.Inspect(body, func(y ast.Node) bool {
+			switch s := y.(type) {
+			case *ast.ForStmt, *ast.RangeStmt:
+				return y == ast.Node(body) // nested loops: their own break/continue do not leave ours
+			case *ast.BranchStmt:
+				if (s.Tok == token.CONTINUE || s.Tok == token.BREAK) && !bad.IsValid() {
+					bad = s.Pos()
+				}
+			case *ast.ReturnStmt:
+				if !bad.IsValid() {
+					bad = s.Pos()
+				}
+			}
+			return true
+		})
+		c.Check(!bad.IsValid(), "addCaseEquivalences / every range is walked", x.Pos(), "the loop over the ranges is left / continued early at %s: the ranges that take that way do not get the partners SimpleFold gives — `(?i)[a-\\x{FFFF}]` then matches \"hello\" but not \"HELLO\"", p.Pos(bad))
+		return false
+	})
+	if n == 0 {
+		c.Anchor("the loop that calls tryFindCaseEquivalences")
+	}
+}
+
+// ---------------------------------------------------------------------------
+// R-SCANASCII: the byte-set pre-filter holds ASCII bytes only.
+// asciiSetStringScanner searches the raw string with strings.IndexAny, which
+// treats its set as UTF-8 text: a lone lead byte of a multi-byte member is
+// read as U+FFFD and never found.  The constructor therefore refuses any set
+// with a member beyond ASCII, and every byte it stores is such a member.
+// ---------------------------------------------------------------------------
+
+func RScanASCII(c *core.Ctx) {
+	c.Rule("R-SCANASCII", "every byte that newASCIISetStringScanner puts into the scanner's character list is the conversion byte(ch) of a set member ch: no byte from any other source (an encoded lead byte) enters the list", 1)
+	p := c.P
+	fn := p.SSAFunc(p.LookupFunc("", "newASCIISetStringScanner"))
+	if fn == nil {
+		c.Anchor("regexp2.newASCIISetStringScanner")
+		return
+	}
+	c.Visit(core.SSAName(fn))
+	isByteSlice := func(t types.Type) bool {
+		sl, ok := t.Underlying().(*types.Slice)
+		if !ok {
+			return false
+		}
+		b, ok := sl.Elem().Underlying().(*types.Basic)
+		return ok && b.Kind() == types.Uint8
+	}
+	fromMember := func(v ssa.Value) bool {
+		cv, ok := v.(*ssa.Convert)
+		if !ok {
+			return false
+		}
+		b, ok := cv.X.Type().Underlying().(*types.Basic)
+		return ok && b.Kind() == types.Int32
+	}
+	n := 0
+	check := func(v ssa.Value, pos token.Pos) {
+		n++
+		c.Check(fromMember(v), fmt.Sprintf("newASCIISetStringScanner / byte #%d stored in the list is byte(member)", n), pos, "a byte that is not the conversion of a set member is put into the list (`%s`): strings.IndexAny reads the list as UTF-8, a lone lead byte in it means U+FFFD, so the multi-byte member is never searched for and matches that begin with it are skipped", v.String())
+	}
+	for _, b := range fn.Blocks {
+		for _, ins := range b.Instrs {
+			switch x := ins.(type) {
+			case *ssa.Store:
+				if ia, ok := x.Addr.(*ssa.IndexAddr); ok && isByteSlice(ia.X.Type()) {
+					// skip the stores that build the variadic argument of append (handled below)
+					if al, ok := ia.X.(*ssa.Alloc); ok {
+						_ = al
+						continue
+					}
+					check(x.Val, x.Pos())
+				}
+			case *ssa.Call:
+				if bi, ok := x.Call.Value.(*ssa.Builtin); ok && bi.Name() == "append" && len(x.Call.Args) == 2 && isByteSlice(x.Call.Args[0].Type()) {
+					// appended elements: stores into the backing array of the variadic slice
+					if sl, ok := x.Call.Args[1].(*ssa.Slice); ok {
+						if al, ok := sl.X.(*ssa.Alloc); ok {
+							for _, r := range core.Referrers(al) {
+								if ia, ok := r.(*ssa.IndexAddr); ok {
+									for _, r2 := range core.Referrers(ia) {
+										if st, ok := r2.(*ssa.Store); ok {
+											check(st.Val, st.Pos())
+										}
+									}
+								}
+							}
+						}
+					}
+				}
+			}
+		}
+	}
+	if n == 0 {
+		c.Anchor("bytes stored by newASCIISetStringScanner")
+	}
+}
